@@ -57,7 +57,11 @@ bool check_sequence(vh::Case& c, const std::vector<Simplex>& seq, const ComplexM
     if (!M.has(seq[i])) { c.violation("order.foreign", sig, "simplex not in the complex: " + oracle::show(seq[i])); return false; }
   }
   size_t expected = 0;
-  for (auto& kv : M.cx) { bool ign = ignore_inf && std::isinf(kv.second); if (!ign) { ++expected; if (!pos.count(kv.first)) { c.violation("order.missing", sig, "simplex missing: " + oracle::show(kv.first)); return false; } } else if (pos.count(kv.first)) { c.violation("order.ignored_listed", sig, "ignored (infinite) simplex listed"); return false; } }
+  // classification only: a non-empty complex ALL of whose simplices are ignored leaves an empty cache behind
+  bool every_simplex_ignored = ignore_inf && !M.cx.empty();
+  for (auto& kv : M.cx) if (!std::isinf(kv.second)) every_simplex_ignored = false;
+  if (every_simplex_ignored) c.count("state.every_simplex_ignored");
+  for (auto& kv : M.cx) { bool ign = ignore_inf && std::isinf(kv.second); if (!ign) { ++expected; if (!pos.count(kv.first)) { c.violation("order.missing", sig, "simplex missing: " + oracle::show(kv.first)); return false; } } else if (pos.count(kv.first)) { c.violation("order.ignored_listed", sig + (every_simplex_ignored ? ",every_simplex_ignored" : ""), "ignored (infinite) simplex listed"); return false; } }
   c.count("cmp.order_permutation");
   for (int i = 1; i < (int)seq.size(); ++i) if (M.cx.at(seq[i]) < M.cx.at(seq[i - 1])) { c.violation("order.decreasing", sig, "value decreases at position " + vh::str(i)); return false; }
   for (int i = 0; i < (int)seq.size(); ++i) for (auto& f : ComplexModel::facets(seq[i])) if (pos.at(f) > i) { c.violation("order.face_after_coface", sig, oracle::show(f) + " listed after " + oracle::show(seq[i])); return false; }
